@@ -51,40 +51,61 @@ class OneShot:
 class SizedOneShot(OneShot):
     """a Sized, self-iterating, one-shot object that is NOT a Collection (no __contains__)"""
     def __len__(self): return len(self._i) - self.consumed
+class SizedStream:
+    """Sized, NOT an Iterator (no __next__), NOT a Collection (no __contains__): __iter__ hands out its one stored iterator, so any
+    iteration by a checker is observable as consumption"""
+    def __init__(self, items=()): self._i = list(items); self.consumed = 0; self.touched = []
+    def __len__(self): self.touched.append('len'); return len(self._i) - self.consumed
+    def __iter__(self):
+        self.touched.append('iter'); outer = self
+        class _It:
+            def __iter__(s): return s
+            def __next__(s):
+                if outer.consumed >= len(outer._i): raise StopIteration
+                outer.consumed += 1; return outer._i[outer.consumed - 1]
+        return _It()
+    def __repr__(self): return f'SizedStream({self._i!r})'
+class Stream(SizedStream):
+    """like SizedStream but without __len__"""
+    __len__ = None
 class SizedOnly:
     def __init__(self, n=1): self.n = n
     def __len__(self): return self.n
 class Reads:
-    n = 0
+    n = 0; per = {}
+    @classmethod
+    def reset(cls): cls.n = 0; cls.per = {}
+    @classmethod
+    def hit(cls, owner): cls.n += 1; cls.per[id(owner)] = cls.per.get(id(owner), 0) + 1
 class _CIter:
-    def __init__(self, it): self.it = it
+    def __init__(self, it, owner): self.it = it; self.owner = owner
     def __iter__(self): return self
     def __next__(self):
-        v = next(self.it); Reads.n += 1; return v
+        v = next(self.it); Reads.hit(self.owner); return v
 class CList(list):
-    def __getitem__(self, k): Reads.n += 1; return list.__getitem__(self, k)
-    def __iter__(self): return _CIter(list.__iter__(self))
+    def __getitem__(self, k): Reads.hit(self); return list.__getitem__(self, k)
+    def __iter__(self): return _CIter(list.__iter__(self), self)
 class CTuple(tuple):
-    def __getitem__(self, k): Reads.n += 1; return tuple.__getitem__(self, k)
-    def __iter__(self): return _CIter(tuple.__iter__(self))
+    def __getitem__(self, k): Reads.hit(self); return tuple.__getitem__(self, k)
+    def __iter__(self): return _CIter(tuple.__iter__(self), self)
 class CSet(set):
-    def __iter__(self): return _CIter(set.__iter__(self))
+    def __iter__(self): return _CIter(set.__iter__(self), self)
 class CFrozenSet(frozenset):
-    def __iter__(self): return _CIter(frozenset.__iter__(self))
+    def __iter__(self): return _CIter(frozenset.__iter__(self), self)
 class CDeque(collections.deque):
-    def __getitem__(self, k): Reads.n += 1; return collections.deque.__getitem__(self, k)
-    def __iter__(self): return _CIter(collections.deque.__iter__(self))
+    def __getitem__(self, k): Reads.hit(self); return collections.deque.__getitem__(self, k)
+    def __iter__(self): return _CIter(collections.deque.__iter__(self), self)
 class CDict(dict):
-    def __getitem__(self, k): Reads.n += 1; return dict.__getitem__(self, k)
-    def __iter__(self): return _CIter(dict.__iter__(self))
-    def values(self): return _CView(dict.values(self))
-    def items(self): return _CView(dict.items(self))
-    def keys(self): return _CView(dict.keys(self))
+    def __getitem__(self, k): Reads.hit(self); return dict.__getitem__(self, k)
+    def __iter__(self): return _CIter(dict.__iter__(self), self)
+    def values(self): return _CView(dict.values(self), self)
+    def items(self): return _CView(dict.items(self), self)
+    def keys(self): return _CView(dict.keys(self), self)
 class _CView:
-    def __init__(self, v): self.v = v
-    def __iter__(self): return _CIter(iter(self.v))
+    def __init__(self, v, owner): self.v = v; self.owner = owner
+    def __iter__(self): return _CIter(iter(self.v), self.owner)
     def __len__(self): return len(self.v)
-for _c in (Attrs, Opaque, UserSeq, UserColl, UserSet, UserMap, OneShot, SizedOneShot, SizedOnly, CList, CTuple, CSet, CFrozenSet, CDeque, CDict):
+for _c in (Attrs, Opaque, UserSeq, UserColl, UserSet, UserMap, OneShot, SizedOneShot, SizedStream, Stream, SizedOnly, CList, CTuple, CSet, CFrozenSet, CDeque, CDict):
     NS[_c.__name__] = _c
 COUNTING = {list: CList, tuple: CTuple, set: CSet, frozenset: CFrozenSet, collections.deque: CDeque, dict: CDict}
 
@@ -230,9 +251,15 @@ def replay_gen(kind, hint_src, conf_src, obj_src, r, extra=None):
         if v == 'raise' and not isinstance(e, BeartypeException): return True, f'check raised {type(e).__name__}: {e}'[:300]
         if v == 'raise': return True, f'check raised {type(e).__name__}: {e}'[:300]
         return False, v
+    if kind == 'C09L':
+        Reads.reset()
+        v, e = real_verdict(obj, hint, conf, r)
+        worst = max(Reads.per.values(), default=0)
+        if worst > extra['allowed']: return True, f'one container object was read {worst} times during one check, the hint allows {extra["allowed"]} at that level ({v})'
+        return False, f'max {worst} reads of one container'
     if kind == 'C09':
         bound = extra['bound']
-        Reads.n = 0
+        Reads.reset()
         v, e = real_verdict(obj, hint, conf, r)
         if Reads.n > bound: return True, f'{Reads.n} item reads > bound {bound} on {type(obj).__name__} of len {len(obj) if hasattr(obj, "__len__") else "?"} ({v})'
         return False, f'{Reads.n} reads'
@@ -246,6 +273,7 @@ def replay_gen(kind, hint_src, conf_src, obj_src, r, extra=None):
 
 def snapshot(o, depth=0):
     if isinstance(o, OneShot): return ('oneshot', o.consumed)
+    if isinstance(o, SizedStream): return ('stream', o.consumed, tuple(o.touched))
     if depth > 3: return None
     if isinstance(o, dict): return ('dict', type(o).__name__, tuple((repr(k), snapshot(v, depth + 1)) for k, v in dict.items(o)))
     if isinstance(o, (list, tuple, collections.deque)): return (type(o).__name__, tuple(snapshot(i, depth + 1) for i in _plain_iter(o)))
